@@ -16,6 +16,7 @@ type WElem struct {
 	Impl   TypeID   `json:",omitempty"` // bind: concrete type (T or *T) the interface is bound to
 	Type   TypeID   `json:",omitempty"` // value / ivalue: type of the variable holding the value
 	Var    string   `json:",omitempty"`
+	VarPkg string   `json:",omitempty"` // value: the variable is declared in this external package (key of Exts)
 	H      uint32   `json:",omitempty"`
 	Struct TypeID   `json:",omitempty"` // struct / fieldsof: the struct type T
 	Fields []string `json:",omitempty"` // struct: ["*"] or names; fieldsof: names
@@ -80,7 +81,7 @@ type WOpts struct {
 }
 
 var WireFeatures = []string{"bind", "bind-value-impl", "value", "ivalue", "struct", "struct-fields", "struct-value-consumer", "fieldsof", "fieldsof-value", "fieldsof-ptr",
-	"sets", "nested-sets", "inline-sets", "inline-sets-deep", "struct-unexported-field", "ext-alias-suffix", "ext-name-differs-from-path", "composite", "same-name-packages-across-files", "fieldsof-twice", "second-injector", "twin-types-in-same-named-packages", "err", "args", "unused-arg", "multi-file", "ext", "bind-foreign-ctor", "bind-split-set", "multi-result"}
+	"sets", "nested-sets", "inline-sets", "inline-sets-deep", "struct-unexported-field", "ext-alias-suffix", "ext-name-differs-from-path", "composite", "same-name-packages-across-files", "fieldsof-twice", "second-injector", "twin-types-in-same-named-packages", "value-ext-var", "err", "args", "unused-arg", "multi-file", "ext", "bind-foreign-ctor", "bind-split-set", "multi-result"}
 
 func WAllowAll(except ...string) map[string]bool {
 	m := map[string]bool{}
@@ -346,6 +347,16 @@ func GenWire(rt *rapid.T, o WOpts) *WCase {
 		k := rapid.IntRange(0, 99).Draw(rt, "ukind")
 		switch {
 		case !last && k < 8 && g.want("value", "isvalue", 100):
+			if g.o.Allow["ext"] && rapid.IntRange(0, 3).Draw(rt, "extvalue") == 3 {
+				// wire.Value(util.ValEaa): a variable of an external package, of a type of that package
+				key := g.extKey()
+				t := g.addType(Type{Kind: KStruct, Name: g.extTypeName(key), Pkg: key})
+				e := WElem{Kind: "value", Type: t, Var: "Val" + g.c.T(t).Name, VarPkg: key, H: uint32(rapid.IntRange(1, 1<<20).Draw(rt, "h"))}
+				g.c.Ext(key).Vars = append(g.c.Ext(key).Vars, ExtVar{Name: e.Var, Type: t, H: e.H})
+				g.addUnit(e, nil, []TypeID{t})
+				g.w.AddFeature("value-ext-var")
+				continue
+			}
 			t := g.freshType("")
 			g.addUnit(WElem{Kind: "value", Type: t, Var: g.name("val"), H: uint32(rapid.IntRange(1, 1<<20).Draw(rt, "h"))}, nil, []TypeID{t})
 		case !last && k < 14 && g.want("ivalue", "isivalue", 100):
@@ -670,10 +681,10 @@ func (g *wgen) assemble() {
 	// plain `util`; the providers of b/util all live in one set declared in file 2
 	sameName := false
 	usesExt2 := func(u int) bool {
-		return g.units[u].Kind == "prov" && g.c.ProvByID(g.units[u].Prov).Pkg == "ext2"
+		return g.units[u].Kind == "prov" && g.c.ProvByID(g.units[u].Prov).Pkg == "ext2" || g.units[u].Kind == "value" && g.units[u].VarPkg == "ext2"
 	}
 	usesExt1 := func(u int) bool {
-		return g.units[u].Kind == "prov" && g.c.ProvByID(g.units[u].Prov).Pkg == "ext"
+		return g.units[u].Kind == "prov" && g.c.ProvByID(g.units[u].Prov).Pkg == "ext" || g.units[u].Kind == "value" && g.units[u].VarPkg == "ext"
 	}
 	if g.c.Ext("ext2") != nil && g.o.MaxFiles >= 2 && len(g.twinUnits) == 0 {
 		for u := range g.units {
